@@ -248,7 +248,7 @@ type c17Path struct {
 }
 
 var c17Leaves = []string{"str", "mapss", "ints", "array", "nilptr", "int"}
-var c17Nest = []string{"mapany", "sliceany", "struct", "ptr", "mapstruct"}
+var c17Nest = []string{"mapany", "sliceany", "struct", "ptr", "ptrptr", "mapstruct", "ptrmap", "ptrslice"}
 
 // build value from a descriptor like "mapany>sliceany>str"
 func c17Build(desc string) any {
@@ -279,6 +279,16 @@ func c17Build(desc string) any {
 			v = c17Path{Field: v, Tagged: v, priv: 1}
 		case "ptr":
 			v = &c17Path{Field: v, Tagged: "tg", priv: 2}
+		case "ptrptr":
+			p := &c17Path{Field: v, Tagged: "tg2"}
+			v = &p
+		case "ptrmap":
+			m := map[string]any{"k": v}
+			v = &m
+		case "ptrslice":
+			sl := []any{v, "second"}
+			pp := &sl
+			v = &pp
 		case "mapstruct":
 			v = map[string]c17Path{"k": {Field: v}}
 		}
